@@ -108,6 +108,37 @@ struct PrimRun {
         if (want_sqrt) { Bn e = Bn::add(mod, Bn(1)).shr1().shr1(), sq = Bn::powmod(target, e, mod); if (Bn::mulmod(sq, sq, mod) == target) tok("S", sq, nb); }
         return out;
     }
+    // Reduction inputs that put the *internal* carries of the row-by-row Montgomery reduction on their boundaries. Row i adds
+    // m_i*modulus*2^(W*i) and carries into word i+n; that word of the input never influences any m_j, so it can be solved for:
+    // word + (everything carried into it) = 2^W-1 (all ones: a pending carry from the row below then wraps it "in the second add"),
+    // = 2^W (exact wrap), = 2^W+1, or left random. W = 64 and 32 (the two word sizes of the back ends); pattern = one choice per row.
+    static std::string carry_token(bool is256, int W, const std::vector<uint8_t>& h_in, std::string& pat_out) {
+        const Bn& mod = is256 ? K().r : K().q; int bits = is256 ? 256 : 384, n = bits / W; size_t nb = (size_t) bits / 8;
+        std::vector<uint8_t> h = h_in; h.resize(200);
+        Bn WW = Bn(1).shl(W);
+        // -mod^-1 mod 2^W
+        uint64_t p0 = mod.low64(), inv = p0; for (int i = 0; i < 6; i++) inv *= 2 - p0 * inv; inv = 0 - inv; if (W == 32) inv &= 0xFFFFFFFFull;
+        Bn T = Bn::from_le(&h[8], 2 * nb);
+        { Bn top = Bn::mod(Bn::from_le(&h[8 + 2 * nb - 8], 8), Bn(mod.shl(0).w[bits / 32 - 1] ? (uint64_t) mod.w[bits / 32 - 1] : 1)); Bn lowpart = Bn::mod(T, Bn(1).shl(2 * bits - 32)); T = Bn::add(lowpart, top.shl(2 * bits - 32)); }   // top 32-bit word strictly below the modulus' top word: T < modulus*2^bits whatever the words below
+        auto word = [&](const Bn& x, int i) { Bn t = x; for (int k = 0; k < W * i; k++) t = t.shr1(); return Bn::mod(t, WW); };   // (slow but tiny n)
+        pat_out.clear();
+        for (int i = 0; i + 1 < n; i++) {                      // words n .. 2n-2 (the top word stays)
+            int choice = h[150 + (size_t) i % 40] % 5; static const char* nm = "RAZOR"; pat_out += nm[choice];
+            if (choice == 0 || choice == 4) continue;
+            // clear word i+n, simulate rows 0..i, read what arrives at position i+n
+            Bn wsel = word(T, i + n); Bn T0 = Bn::sub(T, wsel.shl(W * (i + n)));
+            Bn X = T0;
+            for (int j = 0; j <= i; j++) { uint64_t xw = word(X, j).low64(); uint64_t m = xw * inv; if (W == 32) m &= 0xFFFFFFFFull; X = Bn::add(X, Bn::mul(Bn(m), mod).shl(W * j)); }
+            Bn high = X; for (int k = 0; k < W * (i + n); k++) high = high.shr1();                 // everything at and above position i+n
+            Bn above = T0; for (int k = 0; k < W * (i + n + 1); k++) above = above.shr1();          // the input's own words above it
+            Bn stuff = Bn::sub(high, above.shl(W));                                                   // what the rows carried into position i+n (0 .. 2^W)
+            Bn target = choice == 1 ? Bn::sub(WW, Bn(1)) : choice == 2 ? WW : Bn::add(WW, Bn(1));
+            if (Bn::cmp(target, stuff) < 0) continue;
+            Bn nw = Bn::sub(target, stuff); if (Bn::cmp(nw, WW) >= 0) continue;
+            T = Bn::add(T0, nw.shl(W * (i + n)));
+        }
+        std::vector<uint8_t> b(2 * nb); T.to_le(b.data(), 2 * nb); return "T:" + hex(b.data(), 2 * nb);
+    }
     // TAIL wide tr ra level rel | v=<hex> T:<hex> A:<hex> B:<hex> S:<hex>
     void op_tail(const Op& op) {
         bool is256 = op.arg(0) != 0; int T = is256 ? BK_T512 : BK_T768, F = is256 ? BK_F256 : BK_F384; size_t tr = (size_t) op.arg(1), ra = (size_t) op.arg(2) % 8;
@@ -119,7 +150,8 @@ struct PrimRun {
             else if (t[0] == 'S') { set(F, (ra + 2) % 8, v); env.count("probe:tail_squaring_operand_constructed"); }
         }
         int level = (int) op.arg(3), rel = (int) op.arg(4);
-        env.count(strf("probe:tail_%d_words_equal_next_%s", level, rel < 0 ? "smaller" : rel == 0 ? "equal" : "larger"));
+        if (level >= 100) env.count(strf("probe:reduction_input_with_internal_carries_on_boundaries_w%d", level - 100));
+        else env.count(strf("probe:tail_%d_words_equal_next_%s", level, rel < 0 ? "smaller" : rel == 0 ? "equal" : "larger"));
         env.logf("TAIL w%d l%d r%d %s", is256, level, rel, op.s.empty() ? "" : op.s[0].c_str());
     }
     void op_prim(const Op& op) {
@@ -178,6 +210,12 @@ struct PrimScenario : Scenario {
                 p.ops.push_back({"PRIM", {w ? JV_PR_FP256_REDC : JV_PR_FP384_REDC, (ra + 3) % 8, tr, tr, 0, 0}, {}});
                 p.ops.push_back({"PRIM", {w ? JV_PR_FP256_MUL : JV_PR_FP384_MUL, (ra + 4) % 8, ra, (ra + 1) % 8, 0, 0}, {}});
                 if (sq) p.ops.push_back({"PRIM", {JV_PR_FP384_SQR, (ra + 5) % 8, (ra + 2) % 8, 0, 0, 0}, {}});
+            }
+            else if (k == 2 && r.chance(1, 2)) {
+                bool w = r.chance(1, 4); int64_t tr = (int64_t) r.below(4); int W = r.chance(1, 2) ? 64 : 32; std::vector<uint8_t> hb(200); r.fill(hb.data(), 200); std::string pat;
+                std::string tok = PrimRun::carry_token(w, W, hb, pat);
+                p.ops.push_back({"TAIL", {w, tr, 0, 100 + W, 0}, {"carries=" + pat, tok}});
+                p.ops.push_back({"PRIM", {w ? JV_PR_FP256_REDC : JV_PR_FP384_REDC, (int64_t) r.below(8), tr, tr, 0, 0}, {}});
             }
             else if (k <= 3) p.ops.push_back({"PAIR", {r.chance(1, 3), (int64_t) r.below(8), (int64_t) r.below(8), (int64_t) r.below(8)}, {rh(48)}});
             else p.ops.push_back({"PRIM", {(int64_t) r.below(JV_PR_COUNT), (int64_t) r.below(8), (int64_t) r.below(8), (int64_t) r.below(8), r.chance(1, 3), (int64_t) r.below(4)}, {}});
